@@ -258,8 +258,13 @@ func visitInstr(fr *frame, instr ssa.Instruction) continuation {
 		default:
 			panic(fmt.Sprintf("unexpected x type in IndexAddr: %T", x))
 		}
-		if _, ok := idx.(*Sym); ok {
+		if sv, ok := idx.(*Sym); ok {
 			i.boundsCheck(idx, len(elems), fr.site(instr.Pos()))
+			if onlyLoaded(instr) && allScalar(elems) {
+				// read-only use of a scalar element: defer to an ite-chain at the load
+				fr.env[instr] = &symElemPtr{elems: elems, idx: sv}
+				break
+			}
 			k := i.concInt(idx, 0, int64(len(elems)-1), "index@"+fr.site(instr.Pos()))
 			fr.env[instr] = &elems[k]
 		} else {
@@ -379,6 +384,29 @@ func (i *interpreter) makeSlice(fr *frame, instr *ssa.MakeSlice) value {
 	}
 	i.allocs++
 	return sl[:n]
+}
+
+// onlyLoaded reports whether every use of the address is a load.
+func onlyLoaded(instr *ssa.IndexAddr) bool {
+	refs := instr.Referrers()
+	if refs == nil || len(*refs) == 0 {
+		return false
+	}
+	for _, r := range *refs {
+		u, ok := r.(*ssa.UnOp)
+		if !ok || u.Op != token.MUL {
+			if _, isDbg := r.(*ssa.DebugRef); isDbg {
+				continue
+			}
+			return false
+		}
+	}
+	return true
+}
+
+type symElemPtr struct {
+	elems []value
+	idx   *Sym
 }
 
 func prepareCall(fr *frame, call *ssa.CallCommon) (fn value, args []value) {
